@@ -34,6 +34,7 @@ nsync_mu MU;
 nsync_cv CV;
 enum { M_NONE = 0, M_R = 1, M_W = 2 };
 int g_mode, g_spin, g_desig;
+int g_cvspin;                /* this thread holds the cv's spinlock */
 int env_left = ENV_STEPS;
 int long_wait_mine;          /* MU_LONG_WAIT was set by this thread and not yet cleared */
 int ever_slept;              /* this thread has slept on the mutex during the call */
@@ -58,6 +59,7 @@ static int rely_ok (uint32_t w) {
 	if ((w & MU_CONDITION) == 0) {
 		unsigned i;
 		for (i = 0; i < NQ; i++) { if (Q[i].cond.f != 0 && *(uint32_t *) &Q[i].nw.waiting != 0) { return 0; } }
+		if (me->cond.f != 0 && *(uint32_t *) &me->nw.waiting != 0) { return 0; }
 	}
 	return 1;
 }
@@ -72,6 +74,15 @@ void vf_env (void *addr) {
 			if (env_left == 0) { vf_assume ((w & MU_SPINLOCK) == 0 || g_spin); }
 			WORD = w;
 		}
+	} else if (addr == (void *) &CV.word) {
+		/* the cv word changes only under the cv spinlock: the others can change it only while this thread does not hold it */
+		if (!g_cvspin && env_left > 0 && (vf_nondet_nv () & 1) != 0) {
+			uint32_t w = vf_nondet_nv () & (CV_SPINLOCK | CV_NON_EMPTY);
+			if (CV.waiters != 0) { w |= CV_NON_EMPTY; }      /* non-empty bit agrees with the (fixed) queue */
+			env_left--;
+			if (env_left == 0) { vf_assume ((w & CV_SPINLOCK) == 0); }
+			*(uint32_t *) &CV.word = w;
+		}
 	} else if (addr == (void *) &me->nw.waiting && *(uint32_t *) &me->nw.waiting != 0) {
 		/* the thread sleeps on the mutex: some unlocker dequeues it, marks it designated waker and wakes it */
 		MU.waiters = nsync_remove_from_mu_queue_ (MU.waiters, &me->nw.q);
@@ -81,6 +92,12 @@ void vf_env (void *addr) {
 }
 
 void vf_guar (void *addr, uint32_t o, uint32_t n) {
+	if (addr == (void *) &CV.word) {
+		if ((o & CV_SPINLOCK) == 0 && (n & CV_SPINLOCK) != 0) { vf_assert (!g_cvspin); g_cvspin = 1; }
+		else if ((o & CV_SPINLOCK) != 0 && (n & CV_SPINLOCK) == 0) { vf_assert (g_cvspin); g_cvspin = 0; }   /* C16: cv spinlock released only by its holder */
+		else { vf_assert (g_cvspin || o == n); }                       /* the cv word is written only under its spinlock */
+		return;
+	}
 	if (addr != (void *) &MU.word) { return; }
 	{
 		int taken_w = (o & MU_WLOCK) == 0 && (n & MU_WLOCK) != 0;
@@ -174,7 +191,33 @@ void h_cv_wait (void) {
 	(void) nsync_cv_wait_with_deadline (&CV, &MU, (k & 2) ? nsync_time_s_ns (50, 0) : nsync_time_no_deadline, 0);
 	vf_assert (g_mode == ((k & 1) ? M_R : M_W) && !g_spin);
 }
+/* a condition variable with 1..2 waiters that are associated with MU (so signal/broadcast may transfer them to MU's queue) */
+waiter CQ[2];
+static void setup_cv (void) {
+	unsigned k = vf_nondet_nv ();
+	unsigned n = 1 + (k & 1), i;
+	for (i = 0; i < n; i++) {
+		init_waiter (&CQ[i]);
+		CQ[i].cv_mu = &MU;
+		CQ[i].l_type = ((k >> (1 + i)) & 1) ? nsync_reader_type_ : nsync_writer_type_;
+		*(uint32_t *) &CQ[i].nw.waiting = 1;
+		CV.waiters = nsync_dll_make_last_in_list_ (CV.waiters, &CQ[i].nw.q);
+	}
+	*(uint32_t *) &CV.word = CV_NON_EMPTY;
+}
+void h_cv_signal (void) {     /* C01: a signaller (holding the mutex in any mode, or not at all) changes no lock bit of the mutex */
+	unsigned k = vf_nondet_nv () % 3;
+	setup (k); setup_cv ();
+	if (vf_nondet_nv () & 1) { nsync_cv_signal (&CV); } else { nsync_cv_broadcast (&CV); }
+	vf_assert (g_mode == (int) k && !g_spin && !g_cvspin);
+}
 char dbuf[4];
+void h_cv_debug (void) {      /* C16: the cv debug-state functions only observe */
+	unsigned k = vf_nondet_nv ();
+	setup (M_NONE); setup_cv ();
+	if (k & 1) { nsync_cv_debug_state_and_waiters (&CV, dbuf, 0); } else { nsync_cv_debug_state (&CV, dbuf, 0); }
+	vf_assert (g_mode == M_NONE && !g_spin && !g_cvspin);
+}
 void h_debug (void) {         /* C16: only observes */
 	unsigned k = vf_nondet_nv ();
 	setup (M_NONE);
